@@ -30,6 +30,34 @@ func c05(c *Ctx) {
 	r.Rule("R05.S", "pad-strip range: every cut point len-p, p in 0..15, is tried and no cut point is negative; the 20-byte hash prefix split is length-guarded", 2)
 	r.Rule("R05.B", "the caller's input buffer is never written: a cipher field that may hold a window of the input during a call is never the destination of xor / copy / the block cipher / an element store in that call (including deferred clean-up)", 2)
 	c05Buffers(c)
+	// the wrappers validate what they were given: the slice handed to the block loop by ige.Encrypt / ige.Decrypt is
+	// the padded copy / the caller's ciphertext itself, not a view cut down to whole blocks first (which would
+	// turn the refusal of a ragged length into a silent truncation)
+	if f := c.fn("R05.V", load.IgePkg, "", "Decrypt"); f != nil {
+		n := 0
+		for _, cs := range an.Calls(f) {
+			if !strings.HasSuffix(cs.Name, "Cipher).doAES256IGEdecrypt") {
+				continue
+			}
+			n++
+			args := an.CallArgs(cs.Common)
+			r.Check(len(args) >= 2 && args[1] == ssa.Value(f.Params[0]), "R05.V", "decrypt:validates-what-it-was-given", c.pos(cs.Pos()), "the ciphertext handed to the length check and the block loop is Decrypt's own parameter, not a re-sliced view of it")
+		}
+		if n == 0 {
+			r.Undecide("R05.V", "decrypt:validates-what-it-was-given", c.pos(f.Pos()), "no call of the cipher's decrypt loop in ige.Decrypt")
+		}
+	}
+	{
+		// ... and no scratch space shared through package variables (two goroutines encrypt and decrypt at once)
+		var entries []*ssa.Function
+		for f := range c.P.AllFunctions() {
+			if load.FuncPkgPath(f) == load.IgePkg && f.Synthetic == "" && len(f.Blocks) > 0 && f.Parent() == nil && f.Name() != "init" {
+				entries = append(entries, f)
+			}
+		}
+		sort.Slice(entries, func(i, j int) bool { return entries[i].String() < entries[j].String() })
+		c.noGlobalWrites("R05.B", entries, "the cipher path: the sender and the receive loop run it concurrently")
+	}
 	r.Rule("R05.W", "nonces are converted at fixed width (32 / 16 bytes) before they are mixed into the temp key and IV", 2)
 	r.Rule("R05.K", "temp keys: the tmp_aes_key / tmp_aes_iv expressions extracted from generateTempKeys are the formulas of the key-exchange document", 2)
 	if c.verifySummaries("R05.K") {
@@ -77,7 +105,7 @@ func c05(c *Ctx) {
 		var nilRets []ssa.Instruction
 		for _, b := range f.Blocks {
 			for _, in := range b.Instrs {
-				if ret, ok := in.(*ssa.Return); ok && len(ret.Results) == 1 && an.IsNilConst(an.RetVal(ret, 0)) {
+				if ret, ok := an.AsReturn(in); ok && len(ret.Results) == 1 && an.IsNilConst(an.RetVal(ret, 0)) {
 					nilRets = append(nilRets, ret)
 				}
 			}
